@@ -305,16 +305,21 @@ func (r *Resolver) VisitGrouping(expr *ast.Grouping) ast.VisitResult {
 }
 
 func (r *Resolver) VisitFuncCall(expr *ast.FuncCall) ast.VisitResult {
-	// visit the passed arguments
-	for _, v := range expr.Args {
-		r.visit(v)
+	// visit the passed arguments in the order of the parameters (not of the map),
+	// so that the diagnostics do not change from run to run
+	for _, param := range expr.Func.Parameters {
+		if arg, ok := expr.Args[param.Name.Literal]; ok {
+			r.visit(arg)
+		}
 	}
 	return ast.VisitRecurse
 }
 
 func (r *Resolver) VisitStructLiteral(expr *ast.StructLiteral) ast.VisitResult {
-	for _, arg := range expr.Args {
-		r.visit(arg)
+	for _, field := range expr.Type.Fields {
+		if arg, ok := expr.Args[field.Name]; ok {
+			r.visit(arg)
+		}
 	}
 	return ast.VisitRecurse
 }
